@@ -103,11 +103,17 @@ func checkC13Free(c c13FreeCase) verdict {
 		}
 		_, err = otp.ParseOTPAuthURL(u)
 	case "GenerateOCRA", "ValidateOCRA":
-		suite, _, _ := c.O.Suite.resolve()
+		suite, cfg, _ := c.O.Suite.resolve()
 		if suite == nil {
 			return ok(false, append(labels, "suite-constructor-nil")...)
 		}
 		needles = secretNeedles([]string{c.O.Secret}, c.Key)
+		// the code that would have been accepted, by the reference (the library's own generation may be what fails)
+		if c.Key != nil {
+			if rc, rerr := ref.OCRA(c.Key, cfg, c.O.In); rerr == nil && len(rc) >= 6 {
+				codes = append(codes, rc)
+			}
+		}
 		if c.Op == "GenerateOCRA" {
 			code, err = otp.GenerateOCRA(c.O.Secret, suite, toLibIn(c.O.In))
 		} else {
